@@ -753,42 +753,108 @@ func (g *gen) genCALeaf() ([]byte, string) {
 
 // ---------------------------------------------------------------- ACL
 
+// list-valued ACL fields: 0..6 entries from small universes, with duplicates, in an order the
+// generator fixes — whatever order the store persists must be the same on every replica
+var idSvcNames = []string{"web", "api", "db", "cache", "queue", "auth", "billing", "web"}
+var idNodeNames = []string{"n1", "n2", "n3", "n4", "n1"}
+
+func (g *gen) listLen(max int) int {
+	switch g.r.Intn(10) {
+	case 0, 1, 2:
+		return 0
+	case 3:
+		return 1
+	default:
+		return 2 + g.r.Intn(max-1)
+	}
+}
+
+func (g *gen) svcIdentities() structs.ACLServiceIdentities {
+	var out structs.ACLServiceIdentities
+	for n := g.listLen(6); n > 0; n-- {
+		id := &structs.ACLServiceIdentity{ServiceName: g.pick(idSvcNames)}
+		switch g.r.Intn(4) {
+		case 0:
+			id.Datacenters = []string{"dc2", "dc1"}
+		case 1:
+			id.Datacenters = []string{g.pick(dcs)}
+		}
+		out = append(out, id)
+	}
+	if len(out) > 0 && g.r.Chance(3) {
+		out[g.r.Intn(len(out))].ServiceName = "" // rejected by the store
+	}
+	return out
+}
+
+func (g *gen) nodeIdentities() structs.ACLNodeIdentities {
+	var out structs.ACLNodeIdentities
+	for n := g.listLen(5); n > 0; n-- {
+		out = append(out, &structs.ACLNodeIdentity{NodeName: g.pick(idNodeNames), Datacenter: g.pick([]string{"dc1", "dc2", "dc1"})})
+	}
+	if len(out) > 0 && g.r.Chance(3) {
+		out[g.r.Intn(len(out))].Datacenter = ""
+	}
+	return out
+}
+
+func (g *gen) templatedPolicies(allowBad bool) structs.ACLTemplatedPolicies {
+	var out structs.ACLTemplatedPolicies
+	for n := g.listLen(5); n > 0; n-- {
+		switch g.r.Intn(4) {
+		case 0, 1:
+			out = append(out, &structs.ACLTemplatedPolicy{TemplateName: api.ACLTemplatedPolicyServiceName,
+				TemplateVariables: &structs.ACLTemplatedPolicyVariables{Name: g.pick(idSvcNames)}, Datacenters: []string{"dc2", "dc1"}[:g.r.Intn(3)]})
+		case 2:
+			out = append(out, &structs.ACLTemplatedPolicy{TemplateName: api.ACLTemplatedPolicyNodeName,
+				TemplateVariables: &structs.ACLTemplatedPolicyVariables{Name: g.pick(idNodeNames)}})
+		default:
+			out = append(out, &structs.ACLTemplatedPolicy{TemplateName: api.ACLTemplatedPolicyDNSName})
+		}
+	}
+	if allowBad && len(out) > 0 && g.r.Chance(4) {
+		out[0].TemplateName = "nope"
+	}
+	return out
+}
+
 func (g *gen) aclToken() *structs.ACLToken {
 	i := g.r.Intn(len(uuids))
 	t := &structs.ACLToken{AccessorID: uuids[i], SecretID: "5ec2e700-0000-0000-0000-00000000000" + fmt.Sprint(i), Description: "tok", CreateTime: g.tm()}
 	if g.r.Chance(8) {
 		t.SecretID = "5ec2e700-0000-0000-0000-00000000000" + fmt.Sprint(g.r.Intn(len(uuids))) // secret collision / immutable violation
 	}
-	for n := g.r.Intn(3); n > 0; n-- {
+	for n := g.listLen(5); n > 0; n-- {
 		t.Policies = append(t.Policies, structs.ACLTokenPolicyLink{ID: g.ref("policy", uuids), Name: g.pick(polNames)})
 	}
 	if g.r.Chance(15) {
 		t.Policies = append(t.Policies, structs.ACLTokenPolicyLink{ID: structs.ACLPolicyGlobalManagementID})
 	}
-	for n := g.r.Intn(2); n > 0; n-- {
+	for n := g.listLen(4); n > 0; n-- {
 		t.Roles = append(t.Roles, structs.ACLTokenRoleLink{ID: g.ref("role", uuids), Name: g.pick(roleNames)})
 	}
-	if g.r.Chance(20) {
-		t.ServiceIdentities = structs.ACLServiceIdentities{{ServiceName: g.pick([]string{"web", "", "api"}), Datacenters: []string{"dc1"}}}
+	t.ServiceIdentities = g.svcIdentities()
+	if g.r.Chance(60) {
+		t.NodeIdentities = g.nodeIdentities()
 	}
-	if g.r.Chance(15) {
-		t.NodeIdentities = structs.ACLNodeIdentities{{NodeName: g.pick([]string{"n1", ""}), Datacenter: g.pick([]string{"dc1", ""})}}
-	}
-	if g.r.Chance(10) {
-		t.TemplatedPolicies = structs.ACLTemplatedPolicies{{TemplateName: api.ACLTemplatedPolicyServiceName, TemplateVariables: &structs.ACLTemplatedPolicyVariables{Name: "web"}}}
+	if g.r.Chance(50) {
+		t.TemplatedPolicies = g.templatedPolicies(false)
 	}
 	t.Local = g.r.Chance(25)
-	if g.r.Chance(20) {
+	if g.r.Chance(12) {
 		t.AuthMethod = g.ref("method", methodNames)
 	}
 	if g.r.Chance(20) {
 		e := g.tm()
 		t.ExpirationTime = &e
 	}
-	if g.r.Chance(5) {
+	if g.r.Chance(25) {
+		t.SetHash(true) // as a replicated token carries it; otherwise the store computes it
+	}
+	if g.r.Chance(3) {
 		t.AccessorID = ""
 	}
-	if g.r.Chance(5) {
+	if g.r.Chance(3) {
 		t.SecretID = ""
 	}
 	g.make("token", t.AccessorID)
@@ -798,10 +864,14 @@ func (g *gen) aclToken() *structs.ACLToken {
 }
 
 func (g *gen) genACL() ([]byte, string) {
-	switch g.r.Intn(14) {
+	k := g.r.Intn(18)
+	if k >= 14 {
+		k = 0 // token upserts are the bulk of ACL traffic
+	}
+	switch k {
 	case 0, 1:
-		req := structs.ACLTokenBatchSetRequest{CAS: g.r.Chance(30), AllowMissingLinks: g.r.Chance(50), ProhibitUnprivileged: g.r.Chance(20), FromReplication: g.r.Chance(15)}
-		for n := 1 + g.r.Intn(2); n > 0; n-- {
+		req := structs.ACLTokenBatchSetRequest{CAS: g.r.Chance(20), AllowMissingLinks: g.r.Chance(75), ProhibitUnprivileged: g.r.Chance(15), FromReplication: g.r.Chance(25)}
+		for n := 1 + g.r.Intn(4); n > 0; n-- {
 			req.Tokens = append(req.Tokens, g.aclToken())
 		}
 		return mp(structs.ACLTokenSetRequestType, &req), fmt.Sprintf("acl:token-set:cas=%v", req.CAS)
@@ -848,18 +918,15 @@ func (g *gen) genACL() ([]byte, string) {
 		req := structs.ACLRoleBatchSetRequest{AllowMissingLinks: g.r.Chance(50)}
 		for n := 1 + g.r.Intn(2); n > 0; n-- {
 			ro := &structs.ACLRole{ID: g.pick(uuids), Name: g.pick(roleNames), Description: "role"}
-			for k := g.r.Intn(3); k > 0; k-- {
+			for k := g.listLen(5); k > 0; k-- {
 				ro.Policies = append(ro.Policies, structs.ACLRolePolicyLink{ID: g.ref("policy", uuids), Name: g.pick(polNames)})
 			}
-			if g.r.Chance(20) {
-				ro.ServiceIdentities = structs.ACLServiceIdentities{{ServiceName: g.pick([]string{"web", ""})}}
+			ro.ServiceIdentities = g.svcIdentities()
+			if g.r.Chance(50) {
+				ro.NodeIdentities = g.nodeIdentities()
 			}
-			if g.r.Chance(15) {
-				ro.NodeIdentities = structs.ACLNodeIdentities{{NodeName: "n1", Datacenter: g.pick([]string{"dc1", ""})}}
-			}
-			if g.r.Chance(15) {
-				ro.TemplatedPolicies = structs.ACLTemplatedPolicies{{TemplateName: g.pick([]string{api.ACLTemplatedPolicyServiceName, "nope", api.ACLTemplatedPolicyDNSName}),
-					TemplateVariables: &structs.ACLTemplatedPolicyVariables{Name: g.pick([]string{"web", ""})}}}
+			if g.r.Chance(40) {
+				ro.TemplatedPolicies = g.templatedPolicies(true)
 			}
 			ro.SetHash(true)
 			g.make("role", ro.ID)
@@ -876,7 +943,10 @@ func (g *gen) genACL() ([]byte, string) {
 		req := structs.ACLBindingRuleBatchSetRequest{}
 		for n := 1 + g.r.Intn(2); n > 0; n-- {
 			br := &structs.ACLBindingRule{ID: g.pick(uuids), Description: "br", AuthMethod: g.ref("method", append(methodNames, "")), Selector: "serviceaccount.namespace==default",
-				BindType: g.pick([]string{structs.BindingRuleBindTypeService, structs.BindingRuleBindTypeRole, structs.BindingRuleBindTypeNode}), BindName: "web"}
+				BindType: g.pick([]string{structs.BindingRuleBindTypeService, structs.BindingRuleBindTypeRole, structs.BindingRuleBindTypeNode, structs.BindingRuleBindTypeTemplatedPolicy}), BindName: g.pick(idSvcNames)}
+			if br.BindType == structs.BindingRuleBindTypeTemplatedPolicy {
+				br.BindVars = &structs.ACLTemplatedPolicyVariables{Name: g.pick(idSvcNames)}
+			}
 			if g.r.Chance(5) {
 				br.ID = ""
 			}
@@ -894,7 +964,9 @@ func (g *gen) genACL() ([]byte, string) {
 		for n := 1 + g.r.Intn(2); n > 0; n-- {
 			m := &structs.ACLAuthMethod{Name: g.pick(append(methodNames, methodNames[0], methodNames[1], "")), Type: g.pick([]string{"kubernetes", "jwt", "kubernetes", "jwt", ""}), DisplayName: "M", Description: "am",
 				MaxTokenTTL: time.Duration(g.r.Intn(3)) * time.Hour, TokenLocality: g.pick([]string{"", "local", "global"}),
-				Config: map[string]interface{}{"Host": "https://k8s", "CACert": "pem", "ServiceAccountJWT": "jwt", "n": 3}}
+				Config: map[string]interface{}{"Host": "https://k8s", "CACert": "pem", "ServiceAccountJWT": "jwt", "n": 3,
+					"BoundAudiences": g.subset(idSvcNames, 0, 6), "ClaimMappings": map[string]string{"a": "x", "b": "y", "c": "z"},
+					"ListClaimMappings": map[string]interface{}{"groups": "g", "teams": "t"}}}
 			g.make("method", m.Name)
 			req.AuthMethods = append(req.AuthMethods, m)
 		}
